@@ -95,6 +95,28 @@ func c12List(c *fw.Case, composer *doccomposer.DocumentComposer, failAt int) {
 	if len(patches) == 0 {
 		return
 	}
+	if r.Chance(1, 3) {
+		// value lists with entries of another JSON type in between (a text among the keys, a number among the ids): the composer passes
+		// over them; the caller's lists stay as they were, junk included
+		patches = oracle.DeepCopy(patches).([]interface{})
+		for _, pi := range patches {
+			pm, _ := pi.(map[string]interface{})
+			for _, member := range []string{"publicKeys", "services", "ids", "uris"} {
+				l, ok := pm[member].([]interface{})
+				if !ok || len(l) == 0 || r.Bool() {
+					continue
+				}
+				junk := fw.Pick(r, []interface{}{"junk", 7.0, nil, true, []interface{}{}})
+				if member == "ids" || member == "uris" {
+					junk = fw.Pick(r, []interface{}{7.0, nil, map[string]interface{}{"id": "x"}, []interface{}{"a"}, false})
+				}
+				at := r.Intn(len(l) + 1)
+				pm[member] = append(append(append([]interface{}{}, l[:at]...), junk), l[at:]...)
+				c.Count("value-lists-with-foreign-entries", 1)
+			}
+		}
+		actions += "+junk"
+	}
 	if _, aerr := oracle.ApplyPatchesModel(doc, patches, oracle.Quirks{AliasCopy: true, MoveCopySet: true}); oracle.IsCycleErr(aerr) {
 		c.Count("excluded:alias-cycle (C19 known finding)", 1)
 		return
